@@ -88,6 +88,9 @@ struct Violation
    Violation(const std::string & c, const std::string & d) : cls(c), detail(d) {}
 };
 [[noreturn]] void Fail(const std::string & cls, const std::string & detail);   // throws Violation
+// Reports a violation from ANY thread of a fork-per-run child (where unwinding is impossible: other threads are parked inside the
+// system under test) through the worker protocol and _exit()s.  In a non-forked worker it reports like a watchdog hit.
+[[noreturn]] void ExitWithViolation(const std::string & cls, const std::string & detail, uint64_t hash = 0);
 
 // ---------------------------------------------------------------- run result / property definition
 struct RunResult
